@@ -45,7 +45,7 @@ def gen(rng, tier, idx):
                       # base name in different directories (donor_0/expression.h5ad, donor_1/expression.h5ad)
                       'copy_data_over': rng.random() < 0.3, 'same_basename': rng.random() < 0.35})
     return {'wp': wp, 'parts': parts, 'normalised': rng.random() < 0.3, 'plant_cpm1': rng.random() < 0.5,
-            'plant_near_cpm1': rng.random() < 0.3, 'seed': rng.randrange(2 ** 31), 'kcfg': common.draw_kernel_cfg(rng)}
+            'plant_near_cpm1': rng.random() < 0.3, 'repack_before_truncation': rng.random() < 0.4, 'seed': rng.randrange(2 ** 31), 'kcfg': common.draw_kernel_cfg(rng)}
 
 
 def exact_stats(X, labels, leaves, normalised):
@@ -217,10 +217,38 @@ def run(scn, sb):
                 drop_i = int(r.integers(0, int(keep) - 1))
                 new_h = [lv for i, lv in enumerate(new_h) if i != drop_i]
             dst = sb.p('out', 'truncated.h5')
-            o = drivers.outcome_of(truncate_precomputed_stats_file, input_path=files[0][0], output_path=dst,
+            trunc_src = files[0][0]
+            repacked = ''
+            if scn.get('repack_before_truncation'):
+                # an equivalent statistics file whose rows were re-packed: rows permuted, cluster_to_row keys written
+                # in another order than the rows (the file addresses clusters through that table, nothing else)
+                import h5py
+                import shutil as _sh
+                trunc_src = sb.p('out', 'stats_repacked.h5')
+                _sh.copy(files[0][0], trunc_src)
+                with h5py.File(trunc_src, 'a') as f_:
+                    c2r = json.loads(f_['cluster_to_row'][()].decode())
+                    names = sorted(c2r)
+                    perm = [int(x) for x in r.permutation(len(names))]
+                    new_c2r = {}
+                    order = [int(x) for x in r.permutation(len(names))]
+                    for k_ in ('n_cells', 'sum', 'sumsq', 'gt0', 'gt1', 'ge1'):
+                        old_arr = f_[k_][()]
+                        new_arr = np.zeros_like(old_arr)
+                        for j, nm in enumerate(names):
+                            new_arr[perm[j]] = old_arr[c2r[nm]]
+                        del f_[k_]
+                        f_.create_dataset(k_, data=new_arr)
+                    for j in order:
+                        new_c2r[names[j]] = perm[j]
+                    del f_['cluster_to_row']
+                    f_.create_dataset('cluster_to_row', data=json.dumps(new_c2r).encode('utf-8'))
+                repacked = ' (input rows re-packed)'
+                res['probes']['truncation_of_a_repacked_file'] = 1
+            o = drivers.outcome_of(truncate_precomputed_stats_file, input_path=trunc_src, output_path=dst,
                                    new_hierarchy=list(new_h))
             res['evaluations'] += 1
-            what = 'truncation of %r to %r' % (tax.hierarchy, new_h)
+            what = 'truncation of %r to %r%s' % (tax.hierarchy, new_h, repacked)
             if o[0] != 'ok':
                 viol.append({'cls': 'truncation-raises', 'detail': '%s: %s' % (what, o[1][:300])})
             else:
